@@ -437,6 +437,19 @@ Definition rdataset_from_args (deleting : bool) (args : list arg) : res (option 
       end
   end.
 
+(* the first part of Transaction._add: owner name, rdataset, arguments left *)
+Definition add_parse (a : arg) (rest : list arg) : res (name * rds * list arg) :=
+  match a with
+  | AName n | AStr n =>
+      do y <- rdataset_from_args false rest;
+      match fst y with
+      | Some r => Ok (n, r, snd y)
+      | None => Internal eAssertion
+      end
+  | ARRset n r => do r' <- to_rdataset r; Ok (n, r', rest)
+  | _ => Lib eTypeError
+  end.
+
 Section HighLevel.
   Context {P S : Type}.
   Variable st : store P S.
@@ -447,16 +460,7 @@ Section HighLevel.
     match args with
     | [] => Lib eTypeError
     | a :: rest =>
-        do x <- match a with
-                | AName n | AStr n =>
-                    do y <- rdataset_from_args false rest;
-                    match fst y with
-                    | Some r => Ok (n, r, snd y)
-                    | None => Internal eAssertion
-                    end
-                | ARRset n r => do r' <- to_rdataset r; Ok (n, r', rest)
-                | _ => Lib eTypeError
-                end;
+        do x <- add_parse a rest;
         let '(n, r, rest1) := x in
         if negb (r_cls r =? cIN) then Lib eValueError
         else if (r_ty r =? tSOA) && negb (origin_ok c n) then Lib eValueError
